@@ -28,7 +28,7 @@ THRESHOLDS = {"quick": {"c20:plots": 1200, "c20:kind:LatticeMaze": 200, "c20:kin
                         "c20:with-values": 300, "c20:without-values": 300, "c20:strips-checked": 20000, "c20:blocks-checked": 10000,
                         "c20:true-path": 500, "c20:predicted-path": 500, "c20:ascii": 1200, "c20:oblong": 100,
                         **{f"c20:ul:{u}": 100 for u in (3, 4, 5, 9, 14, 19, 31)}, "c20:int8-paths": 300, "c20:values-contain-minus-one": 200, "c20:negative-values": 50, "c20:constant-values": 50,
-                        "c20:replots": 900, "c20:rejected-values-call": 200, "c20:drawn-images": 2000, "c20:replot-plain-after-values": 300, "c20:detour-solution": 30}}
+                        "c20:replots": 900, "c20:many-predicted-paths": 100, "c20:predicted-paths-sharing-a-label": 60, "c20:rejected-values-call": 200, "c20:drawn-images": 2000, "c20:replot-plain-after-values": 300, "c20:detour-solution": 30}}
 THRESHOLDS["thorough"] = dict(THRESHOLDS["quick"])
 ANCHORS = ["maze_dataset.plotting.plot_maze:MazePlot._lattice_maze_to_img", "maze_dataset.plotting.plot_maze:MazePlot._rowcol_to_coord",
            "maze_dataset.plotting.plot_maze:MazePlot._plot_path", "maze_dataset.plotting.plot_maze:MazePlot.to_ascii",
@@ -207,7 +207,10 @@ def run(ctx):
             else:
                 values = np.full((R, C), float(rng.integers(1, 4))); values[0, 0] += 1.0; ctx.tally("c20:constant-values")
         preds = []
-        for _ in range(int(rng.integers(0, 4))):
+        n_preds = int(rng.integers(0, 4)) if j % 9 else int(rng.integers(7, 14))   # occasionally more paths than default colours
+        if n_preds >= 7:
+            ctx.tally("c20:many-predicted-paths")
+        for _ in range(n_preds):
             m = int(rng.integers(3))
             if m == 0:
                 a = cells[int(rng.integers(len(cells)))]
@@ -248,8 +251,20 @@ def run(ctx):
                         mp.add_true_path(np.array(extra_true, dtype=pdt))
                     else:
                         mp.add_true_path([tuple(p) for p in extra_true])
+                shared_fmt = None
+                if j % 5 == 3 and len(preds) >= 2:
+                    # several roll-outs drawn with one label / one shared format object
+                    from maze_dataset.plotting.plot_maze import PathFormat
+                    shared_fmt = PathFormat(label="rollout", color="orange") if j % 2 else "kw"
+                    ctx.tally("c20:predicted-paths-sharing-a-label")
                 for t, p in enumerate(preds):
-                    mp.add_predicted_path(np.array(p, dtype=pdt) if t % 2 == 0 else [tuple(x) for x in p])
+                    arg = np.array(p, dtype=pdt) if t % 2 == 0 else [tuple(x) for x in p]
+                    if shared_fmt is None:
+                        mp.add_predicted_path(arg)
+                    elif shared_fmt == "kw":
+                        mp.add_predicted_path(arg, label="rollout")
+                    else:
+                        mp.add_predicted_path(arg, path_fmt=shared_fmt)
                 mp.plot()
                 fig = mp.fig
                 ax = mp.ax
